@@ -5,3 +5,5 @@ import Verif.Properties.C12
 #print axioms C12.once
 #print axioms C12.toplevel_iff
 #print axioms C12.keys_distinct
+#print axioms C12.indexed_keys_distinct
+#print axioms C12.indexed_count
